@@ -4,7 +4,8 @@
              4 = (parser only) the property fails, the string lies in the domain of the known finding
                  (list_lossy: a range starting at a representable id whose end exceeds 2^20), the implementation agrees
                  with the model and adds no id the string does not denote. *)
-From Coq Require Import ZArith List Bool String Ascii.
+From Coq Require Import ZArith List Bool.
+From Coq Require String Ascii.
 From DV Require Import Base.Corr Model.CpuSetModel.
 Import ListNotations.
 Local Open Scope Z_scope.
@@ -21,7 +22,7 @@ Definition bools_eqb := list_eqb Bool.eqb.
 Definition MASK64 : Z := 2 ^ 64 - 1.
 Definition words_of_big (z : Z) : list Z :=
   map (fun k => Z.land (Z.shiftr z (64 * k)) MASK64) [0; 1; 2; 3; 4; 5; 6; 7; 8; 9; 10; 11; 12; 13; 14; 15].
-Definition codes (s : string) : list Z := map (fun a => Z.of_N (N_of_ascii a)) (list_ascii_of_string s).
+Definition codes (s : String.string) : list Z := map (fun a => Z.of_N (Ascii.N_of_ascii a)) (String.list_ascii_of_string s).
 
 (* the implementation's final cpu_set_t words denote exactly the set [mem] *)
 Definition words_denote (ws : list Z) (mem : Z -> bool) : bool :=
@@ -99,7 +100,7 @@ Definition judge_parse (c : list Z * Z) : Z :=
       if words_denote iwords (fun i => existsb (fun iv => iv_mem iv i) ivs) then (if agree then 0 else 1) else 2
   end.
 
-Definition judge_parse_s (c : string * Z) : Z := judge_parse (codes (fst c), snd c).
+Definition judge_parse_s (c : String.string * Z) : Z := judge_parse (codes (fst c), snd c).
 
 (* exhaustive enumeration: all strings over the alphabet, compared through a digest per bucket *)
 Definition ALPHA : list Z := [48; 49; 50; 51; 52; 53; 54; 55; 56; 57; 44; 45; 32].
